@@ -16,13 +16,21 @@ NAMES = ['notdef', 'space', 'a', 'b', 'c', 'd', 'x', 'y', 'z', 'm', 'e']
 G = {n: i for i, n in enumerate(NAMES)}
 ADV = [500, 300] + [400 + 50 * i for i in range(2, 9)] + [0, 850]
 GA0, GA1 = 5, 6                         # glyph attributes usable in constraints: ga0 = gid, ga1 = gid % 3
-CMAP = {0x20: 1, 0x61: 2, 0x62: 3, 0x63: 4, 0x64: 5}     # 'e' (U+0065) is deliberately unmapped -> .notdef
+CMAP = {0x20: 1, 0x61: 2, 0x62: 3, 0x63: 4, 0x64: 5, 0x78: 6, 0x79: 7, 0x7A: 8, 0x6D: 9}     # 'e' (U+0065) is deliberately unmapped -> .notdef; x y z m are used by the class-lookup family only
 # classes: index -> ordered member list.  0..6 are used as OUTPUT classes (linear), 7.. as INPUT classes
 CLASSES = [[G['x']], [G['y']], [G['z']], [G['x'], G['y']], [G['m']], [G['c']], [G['d']],
            [G['a']], [G['b']], [G['a'], G['b']], [G['b'], G['c']], [G['a'], G['b'], G['c'], G['d']], [G['x'], G['y'], G['z'], G['m'], G['a'], G['b'], G['c'], G['d']],
            [G['x']], [G['y']], [G['z']], [G['m']]]
 NLINEAR = 7
 OX, OY, OZ, OXY, OM, OC, OD, IA, IB, IAB, IBC, IABCD, IANY, IX, IY, IZ, IM = range(17)
+# class-lookup family: lookup (input) classes of 1..8 members in two member orders, each with a same-sized output class (appended after the classes above;
+# the output classes of this family are lookup classes as well: PUT_SUBS reads the output glyph by index from either kind)
+_ORDER = [[G[n] for n in 'abcdxyzm'], [G[n] for n in 'mzyxdcba']]
+SUBCLS = {}
+for _n in range(1, 9):
+    for _lay in (0, 1):
+        SUBCLS[(_n, _lay)] = (len(CLASSES), len(CLASSES) + 1)
+        CLASSES.append(_ORDER[_lay][:_n]); CLASSES.append([_ORDER[1 - _lay][(k * 3 + 1) % 8] for k in range(_n)])
 
 
 class LRule:
@@ -238,6 +246,12 @@ def programs(tier):
             for pi, P in enumerate((LRule([], [(end, [('glyph', OD)]), (IB, [('glyph', OC)])]), LRule([], [(end, [('glyph', OD)]), (IB, [('glyph', OC)])], ret=-1), LRule([], [(end, [('glyph', OD)]), (IB, [('glyph', OC)]), (IABCD, [])]))):
                 for ti, T in enumerate((LRule([], [(IBC, [('glyph', OZ)])]), LRule([], [(IABCD, [('glyph', OX)])]))):
                     yield dict(kind='backup_chain', passes=[dict(rules=chain + [P, T], maxloop=M)], rtl=0, ids=(M, k, pi, ti))
+    # class lookup: PUT_SUBS through lookup classes of every size 1..8 in two member orders; every member is substituted (alone and in a run)
+    for (n, lay), (cin, cout) in sorted(SUBCLS.items()):
+        mem = CLASSES[cin]; inv = {g: c for c, g in CMAP.items()}
+        tx = [[inv[g]] for g in mem] + [[inv[g] for g in mem], [inv[g] for g in reversed(mem)], [0x61, inv[mem[-1]], 0x62]]
+        yield dict(kind='class_lookup', passes=[dict(rules=[LRule([], [(cin, [('subs', cin, cout)])])])], rtl=0, ids=(n, lay), texts=tx)
+        yield dict(kind='class_lookup', passes=[dict(rules=[LRule([IANY], [(cin, [('subs', cin, cout)])])])], rtl=0, ids=(n, lay, 1), texts=tx)
     # directions: RTL font, reverse-direction pass
     for i, a in enumerate(core[::2] if thorough else core[::8]):
         for rtl in (0, 1):
@@ -288,7 +302,7 @@ def main():
             tables = build_tables(compile_font(prog))
         except AssertionError:
             continue
-        tables[b'XPCT'] = expectation_table(prog, texts)
+        tables[b'XPCT'] = expectation_table(prog, prog.get('texts', texts))
         meta = json.dumps(dict(family='gdl_lite', kind=prog['kind'], rtl=prog['rtl'], passes=[dict(reverse=P.get('reverse', 0), maxloop=P.get('maxloop', 20), positioning=bool(P.get('positioning')), rules=[describe_rule(r) for r in P['rules']]) for P in prog['passes']])).encode()
         out.write(struct.pack('<Q', idx)); write_stream(out, tables, meta)
 
